@@ -1,6 +1,8 @@
-"""C15 — dynamic reader registration (memb/mb part; bp arena: props/c15 extends when BpArena lands).  DESIGN.md §4 C15."""
+"""C15 — dynamic reader registration: memb / mb / qsbr registry (the C01 grace-period model with registration churn) and the
+bp flavor's automatic registration + registry arena + signals (props/c15bp.py).  DESIGN.md §4 C15."""
 import vlib
 from props import gp_common
+from props import c15bp
 
 THEOREMS = ["UrcuVerif.Gp.unregistered_never_scanned", "UrcuVerif.Gp.scan_targets_registered",
             "UrcuVerif.Gp.lists_partition", "UrcuVerif.Gp.registered_late_not_waited",
@@ -16,8 +18,11 @@ OWN = {"gp", "litmus"}
 def run(chk):
     chk.assumptions = TRUSTED
     chk.cov["trusted_base"] = TRUSTED
-    chk.proof_part(["UrcuVerif.Props.C15", "UrcuVerif.Props.C01", "UrcuVerif.Props.C01Qsbr", "drv_gp"], ["UrcuVerif.Props.C15", "UrcuVerif.Props.C01", "UrcuVerif.Props.C01Qsbr"], THEOREMS,
-                   ["UrcuVerif.Gp", "UrcuVerif.Props.C15", "UrcuVerif.Machine"])
+    bp = c15bp.proof_targets()
+    chk.proof_part(["UrcuVerif.Props.C15", "UrcuVerif.Props.C01", "UrcuVerif.Props.C01Qsbr", "drv_gp"] + bp["targets"],
+                          ["UrcuVerif.Props.C15", "UrcuVerif.Props.C01", "UrcuVerif.Props.C01Qsbr", bp["prop_module"]],
+                          THEOREMS + bp["theorems"],
+                          ["UrcuVerif.Gp", "UrcuVerif.Props.C15", "UrcuVerif.Machine"] + bp["audit_mods"], unproved=bp["unproved"])
     ok, log = gp_common.build()
     if not ok:
         chk.fail("build", {"theorem": "harness/scen/gp.c does not compile against /repo", "lean_error": log[-2000:]}, nofail=True)
@@ -27,7 +32,11 @@ def run(chk):
     h = chk.cov.get("branch_histogram", {})
     chk.cov["registration_events"] = {k: h.get(k, 0) for k in ("register", "unregister", "sync_empty_registry", "sync_full_gp")}
     gp_common.report(chk, fails, OWN, gp_common.search_own(chk, OWN, "churn", 300 if chk.tier == "quick" else 3000))
+    # bp: automatic registration, registry arena (growth, slot reuse), exit destructor, fork prune, registration vs signals
+    c15bp.run_part(chk)
 
 
 def replay(rp):
+    if str(rp.get("scenario", "")).startswith("bp_arena"):
+        return c15bp.replay(rp)
     return gp_common.replay(rp)
